@@ -4,6 +4,7 @@
    sets, Model/Blocking.v; lemmas in Proofs/BlockingProofs.v) is new in this file. *)
 From Coq Require Import List String NArith Bool Arith.
 From Iscp Require Import Model.LockCfg Proofs.LockCfgProofs Gen.LockCfg Gen.Waits Props.C08static.
+From Iscp Require Import Model.Lockset Gen.Guards.
 From Iscp Require Import Model.Blocking Proofs.BlockingProofs.
 Import ListNotations.
 Open Scope list_scope.
@@ -20,6 +21,20 @@ Theorem c08_lock_release_all_paths : forall g, In g all_cfgs ->
     exists s, run_path (locks_of g) (nodes g) 0 p s0 = Some s /\ fst s = snd s.
 Proof. exact c08_lock_release_paths. Qed.
 Print Assumptions c08_lock_release_all_paths.
+
+(* no self-deadlock (recursive RLock, Lock under RLock, ...): on every path of every lock-taking
+   function no mutex is acquired while it is held in any mode ... *)
+Theorem c08_no_self_deadlock : forall g, In g all_cfgs ->
+  exists s0, init_state (locks_of g) g = Some s0 /\
+  forall p b, path (nodes g) 0 p b -> run_path_nr (locks_of g) (nodes g) 0 p s0 = true.
+Proof. exact c08_no_reacquire_paths. Qed.
+Print Assumptions c08_no_self_deadlock.
+
+(* ... and across calls: a function that is only entered with locks held (the entry summaries of
+   gen-guards, re-checked at every call edge by c09_guarded_fields) acquires none of them *)
+Theorem c08_no_self_deadlock_callees : no_reacq_callees summaries all_cfgs = true.
+Proof. vm_compute. reflexivity. Qed.
+Print Assumptions c08_no_self_deadlock_callees.
 
 (* every blocking statement of the library is bounded by syntactic evidence or is one of the
    protocols below / a stated join; none is under a lock (the list of exceptions is empty) *)
